@@ -60,6 +60,79 @@ def interp_set(db, f, p4):
     return {"orig": orig, "entries": sorted(ents), "nte_ok": nte_ok}
 
 
+def check_default_quadruples(r7, db, cfgname):
+    from pv.loops import enclosing_loops, loop_shape
+    from pv.paths import every_iteration
+    from pv.expr import Ctx, guard_facts
+    cands = [x for x in db.fns.values() if strip_targs(x.name) == "Pomerol::IndexContainer4::enumerateInitialIndices" and x.body is not None and x.body >= 0]
+    site = "Pomerol::IndexContainer4::enumerateInitialIndices"
+    if not cands:
+        raise AnalysisBroken("IndexContainer4::enumerateInitialIndices is not instantiated in the analysed units")
+    e_ = sorted(cands, key=lambda x: x.qn)[0]
+    with r7.guard(site, e_.loc(), cfgname):
+        ctx = Ctx(e_, db)
+        info = ("field", "Pomerol::IndexContainer4::IndexInfo", ("this",))
+        size_keys = (("mcall", "Pomerol::IndexClassification::getIndexSize", info), ("field", "Pomerol::IndexClassification::IndexSize", info))
+        ins = [j for j, n in e_.walk(e_.body) if n["k"] == "call" and n.get("ck") == "method" and strip_targs(n.get("cname") or "").split("::")[-1] in ("insert", "emplace")]
+        if len(ins) != 1:
+            raise AnalysisBroken("expected one insertion into the set of quadruples, found %d" % len(ins))
+        I = ins[0]
+        Ls = enclosing_loops(e_, I)
+        if len(Ls) != 4:
+            raise AnalysisBroken("the default quadruples are not enumerated by four nested loops (form not analysed)")
+        shapes = [loop_shape(e_, ctx, L) for L in Ls][::-1]          # outermost first
+        ak = ctx.key(e_.nodes[I]["args"][0])
+        while ak[0] == "cast" or (ak[0] == "ctor" and len(ak) == 3 and isinstance(ak[2], tuple) and ak[2][0] == "ctor"):
+            ak = ak[2]
+        if ak[0] != "ctor" or len(ak) != 6:
+            raise AnalysisBroken("the inserted value is not IndexCombination4(i1, i2, i3, i4)")
+        role = {a[:2]: k for k, a in enumerate(ak[2:])}            # loop variable -> position in the quadruple
+
+        def bound_ok(s_):
+            b = s_["bound"]
+            while b[0] == "cast":
+                b = b[2]
+            if b[0] == "var" and ctx.decls.get(b[1], {}).get("init") is not None and ctx.single_assignment(b[1]):
+                b = ctx.key(ctx.decls[b[1]]["init"])
+            return s_["kind"] == "index" and s_["rel"] == "<" and b in size_keys and not s_["exits"]
+        byrole = {}
+        for s_ in shapes:
+            if s_["var"] is None or s_["var"][:2] not in role:
+                raise AnalysisBroken("a loop variable is not an index of the inserted quadruple")
+            byrole[role[s_["var"][:2]]] = s_
+        if sorted(byrole) != [0, 1, 2, 3]:
+            r7.bad(site, e_.loc(I), "the inserted combination does not use the four loop variables as (Index1, Index2, Index3, Index4)", cfgname)
+            return
+        probs = []
+        for r_, partner in ((0, None), (1, 0), (2, None), (3, 2)):
+            s_ = byrole[r_]
+            if not bound_ok(s_):
+                probs.append("Index%d does not run up to IndexSize (`%s`)" % (r_ + 1, e_.s(s_["node"])[:50]))
+                continue
+            st = s_["start"]
+            while isinstance(st, tuple) and st[0] == "cast":
+                st = st[2]
+            if st == ("lit", 0):
+                continue
+            if partner is not None and isinstance(st, tuple) and st[:2] == byrole[partner]["var"][:2]:
+                continue        # Index2 >= Index1 (Index4 >= Index3): the other order is the exchange alias added by set()
+            if partner is not None and isinstance(st, tuple) and st[0] == "op" and st[1] == "+" and len(st) == 4 and ("lit", 1) in st[2:] and \
+                    any(isinstance(x, tuple) and x[:2] == byrole[partner]["var"][:2] for x in st[2:]):
+                continue        # strictly above: the omitted coinciding pair is c_i c_i = 0 (c+_k c+_k = 0), an identically vanishing component
+            probs.append("Index%d starts at %s: quadruples below that are neither created nor aliases of a created one" % (r_ + 1, e_.s(e_.nodes[s_["node"]]["init"])[:40] if e_.nodes[s_["node"]].get("init") is not None else st))
+        inner_ok = every_iteration(e_, Ls[0], I) is True and all(every_iteration(e_, Ls[k + 1], Ls[k]) is True for k in range(3))
+        if probs:
+            r7.bad(site, e_.loc(I), "; ".join(probs), cfgname)
+        elif not inner_ok:
+            fa_ = guard_facts(e_, ctx).get(e_.cfg.pos1(I), frozenset())
+            from checks.c20 import fact_str
+            extra = [fact_str(x) for x in fa_ if not (x[0] in ("<", "<=") )]
+            r7.bad(site, e_.loc(I), "quadruples are filtered out of the default set (%s): a component that prepareAll() does not create is built unprepared on first access and evaluates to 0" % (", ".join(sorted(extra))[:200] or "conditionally inserted"), cfgname)
+        else:
+            r7.ok(site, e_.loc(I), "Index1, Index3 over [0, IndexSize); Index2 >= Index1, Index4 >= Index3 (the other orders are the exchange aliases); inserted unconditionally", cfgname)
+
+
+
 def body(chk, db, cfgname):
     # ------------------------------------------------------------------ tables
     r1 = chk.rule("C13-R1", "permutation tables are complete with correct parity; every alias key permutation equals its frequency permutation", "F7 tables", 28)
@@ -503,6 +576,9 @@ def body(chk, db, cfgname):
                     "; ".join(sorted(str(x)[:70] for x in bad_skip if x[0] in ("true", "false")))[:160] or "no condition"), cfgname)
             else:
                 r5.ok(site, f.loc(), "set(x) for every requested combination x not yet present", cfgname)
+
+    r7 = chk.rule("C13-R7", "the default component set, together with the exchange aliases set() adds, reaches every index quadruple: Index1 and Index3 run over all indices, Index2 / Index4 over all indices or from their partner upwards, nothing is filtered", "F1 full-range loops", 1)
+    check_default_quadruples(r7, db, cfgname)
 
     chk.undecided.append("value-level equality with a directly constructed TwoParticleGF (follows from R1/R2 + C02); behaviour of createElement for unprepared operators")
 
